@@ -264,7 +264,9 @@ def jit_options(run, M):
     run.rule("SJ", "numba decorators of the functions this property's code reaches carry only meaning-preserving options (nopython, cache, nogil); no parallel / fastmath / "
                    "error_model / boundscheck, and no prange")
     n = 0
-    for q in sorted(seen):
+    # (kernels defined inside a reached factory function are compiled when the factory runs: they count as reached)
+    nested = {q2 for q2, g in M.funcs.items() if g.parent is not None and g.parent.qual in seen}
+    for q in sorted(set(seen) | nested):
         f = M.funcs.get(q)
         if f is None:
             continue
